@@ -23,7 +23,7 @@ def run(tier, runner):
     r_cl = closer.closer(progs + real)
     r_cur = lifetime.cursor(progs + real)
     r_cl.require(4, 'roll-back helper overloads (shift_left, unshift_right x relocatable or not)')
-    ob['HOLE'].require(4, 'functions that open slots with shift_right')
+    ob['HOLE'].require(3, 'functions that open slots with shift_right')
     ob['TEMP'].require(2, 'functions that build an element in a local ElemStorage')
     ob['RAWTAIL'].require(30, 'functions that construct into raw storage')
     r_strong.require(15, 'operations documented as strong')
